@@ -272,6 +272,7 @@ class Zygote:
         self.cov_first = {}
         self.cov_lazy = {}
         self.cov_writes = {}
+        self.sensitive = []
 
 
 Z = Zygote()
@@ -428,6 +429,9 @@ def compute_reference(opnames=None, timeout=60.0, coverage=False):
         R[(items[idx][0], frozenset(items[idx][1]))] = value
     if len(R) != len(items):
         raise HarnessError("reference table incomplete")
+    # calls whose result includes warnings or log records are the ones most easily disturbed by somebody
+    # else's state (strictness flags, warning filters, leftovers): runs over-sample them as victims
+    Z.sensitive = sorted({name for (name, m), rec in R.items() if (rec["w"] or rec["l"]) and not Z.op_by_name[name].needs})
     return R
 
 
